@@ -144,7 +144,7 @@ func famReadOnly(w *bufio.Writer, seed uint64, n int) error {
 			b, _ := os.ReadFile(filepath.Join(dir, valid[0]))
 			_ = b
 		}
-		variant := r.pick([]int{2, 2, 2, 2, 1, 4})
+		variant := r.pick([]int{2, 2, 2, 2, 1, 4, 2})
 		addFile := func(seq int64, data []byte, st string) {
 			os.WriteFile(filepath.Join(dir, moss.FormatFName(seq)), data, 0o600)
 			states[seq] = st
@@ -172,6 +172,16 @@ func famReadOnly(w *bufio.Writer, seed uint64, n int) error {
 			os.WriteFile(filepath.Join(dir, "notes.txt"), []byte("junk"), 0o600)
 			os.WriteFile(filepath.Join(dir, "data-zz.moss"), []byte("junk"), 0o600)
 			os.WriteFile(filepath.Join(dir, "data-.moss"), []byte{}, 0o600)
+		case 6: // no data file at all (empty directory, or only junk)
+			for _, name := range valid {
+				os.Remove(filepath.Join(dir, name))
+				delete(states, seqOf(name))
+			}
+			valid, maxSeq, goodHeader = nil, 0, nil
+			ref = map[string][]byte{}
+			if r.chance(1, 2) {
+				os.WriteFile(filepath.Join(dir, "notes.txt"), []byte("junk"), 0o600)
+			}
 		case 5: // an older copy of the data under a lower sequence number
 			if len(valid) > 0 && seqOf(valid[0]) >= 1 {
 				b, _ := os.ReadFile(filepath.Join(dir, valid[0]))
